@@ -40,8 +40,10 @@ def outcome_class(obs) -> str:
 def case_from_json(j: dict) -> Case:
     classes = [{**d, "fields": [(f[0], None, from_json(f[2]) if f[2] is not None else None, f[3])
                                 for f in d.get("fields", [])]} for d in j.get("classes", [])]
-    return Case(from_json(j["v"]), from_json(j["x"]), j["mode"], classes=classes,
-                lazy=from_json(j.get("lazy", [])), fuel=j.get("fuel", 40), tag=j.get("tag", ""))
+    c = Case(from_json(j["v"]), from_json(j["x"]), j["mode"], classes=classes,
+             lazy=from_json(j.get("lazy", [])), fuel=j.get("fuel", 40), tag=j.get("tag", ""))
+    c.extra = {k: from_json(v) for k, v in j.get("extra", {}).items()}
+    return c
 
 
 def shrink_case(case: Case, fails: Callable[[Case], bool], budget: int = 60) -> Case:
@@ -64,6 +66,7 @@ def shrink_case(case: Case, fails: Callable[[Case], bool], budget: int = 60) -> 
         for cand in candidates(best.x):
             n += 1
             c2 = Case(best.v, cand, best.mode, classes=best.classes, lazy=best.lazy, fuel=best.fuel, tag=best.tag)
+            c2.extra = getattr(best, "extra", {})
             try:
                 observe(c2)
                 if fails(c2):
